@@ -77,6 +77,11 @@ func H_C11_filter() {
 	refreshes := 0
 	var mu sync.Mutex
 	w := &watch{watcher: fsw, tracked: map[string]bool{dir: true}}
+	// the cache may have been reconfigured (watch stopped: nothing tracked any more) while events were still pending
+	stopped := nondetBool("watch-stopped-meanwhile")
+	if stopped {
+		w.tracked = nil
+	}
 	vWatchers = map[*fsnotify.Watcher]*vWatcherState{fsw: {watches: map[string]bool{dir: true}}}
 	w.watch(fsw, &mu, func() error { refreshes++; return nil }, map[string]error{})
 	vreach("watcher-loop-returned")
@@ -89,7 +94,7 @@ func H_C11_filter() {
 	case opRenameInside:
 		relevant = vIsSpecName(name) || vIsSpecName(name2)
 	}
-	if relevant {
+	if relevant && !stopped {
 		vreach("relevant-change")
 		vassert("a-change-to-the-spec-files-triggers-a-refresh", refreshes >= 1)
 	}
